@@ -56,6 +56,7 @@ pub fn base_plan(quick: bool) -> SweepPlan {
         mat2: vec![],
         ep_extra: vec![],
         ep_restrict_king: quick,
+        ep_restrict_bk: false,
         castle_enemy: vec![],
         castle_blockers: vec![None],
         disamb: vec![],
@@ -169,6 +170,7 @@ fn generic_sweep(run: &Run, prop: &str) -> i32 {
             // en passant with a slider of the capturing side behind the pawns: checks discovered by the removal
             plan.ep_extra = if run.quick() { vec![Some((Color::W, Kind::Q))] } else { vec![None, Some((Color::W, Kind::Q)), Some((Color::W, Kind::R)), Some((Color::W, Kind::B))] };
             plan.ep_restrict_king = true;
+            plan.ep_restrict_bk = run.quick();
             plan.disamb = vec![(Kind::N, 2, None), (Kind::R, 2, None), (Kind::B, 2, None), (Kind::Q, 2, None), (Kind::N, 2, Some(Kind::P)), (Kind::Q, 2, Some(Kind::R))];
             if !run.quick() {
                 plan.disamb.extend([(Kind::N, 3, None), (Kind::Q, 3, None), (Kind::R, 3, None), (Kind::B, 3, None)]);
